@@ -542,8 +542,11 @@ func (s *TxStore) ExistsUtxo(tx mwdb.ReadTransaction, out *wire.OutPoint) (flags
 		block: &BlockMeta{},
 	}
 
+	// the unmined-inputs bucket is keyed by the outpoint (see insertUnminedInputs)
+	opKey := canonicalOutPoint(&out.Hash, out.Index)
+
 	// unspent exists
-	uspKey, credKey, err := existsUnspent(nsUnspent, s.ksmgr.CurrentKeystore().Name(), out)
+	_, credKey, err := existsUnspent(nsUnspent, s.ksmgr.CurrentKeystore().Name(), out)
 	if err != nil {
 		return nil, err
 	}
@@ -579,7 +582,7 @@ func (s *TxStore) ExistsUtxo(tx mwdb.ReadTransaction, out *wire.OutPoint) (flags
 				})
 			return nil, fmt.Errorf("unexpected error")
 		}
-		cred.flags.SpentByUnmined = existsRawUnminedInput(nsUnminedInputs, uspKey) != nil
+		cred.flags.SpentByUnmined = existsRawUnminedInput(nsUnminedInputs, opKey) != nil
 		return &cred.flags, nil
 	}
 
@@ -607,7 +610,7 @@ func (s *TxStore) ExistsUtxo(tx mwdb.ReadTransaction, out *wire.OutPoint) (flags
 					})
 				return nil, fmt.Errorf("unexpected error")
 			}
-			cred.flags.SpentByUnmined = existsRawUnminedInput(nsUnminedInputs, uspKey) != nil
+			cred.flags.SpentByUnmined = existsRawUnminedInput(nsUnminedInputs, opKey) != nil
 			return &cred.flags, nil
 		}
 	}
@@ -638,7 +641,7 @@ func (s *TxStore) ExistsUtxo(tx mwdb.ReadTransaction, out *wire.OutPoint) (flags
 						})
 					return nil, fmt.Errorf("unexpected error")
 				}
-				cred.flags.SpentByUnmined = existsRawUnminedInput(nsUnminedInputs, uspKey) != nil
+				cred.flags.SpentByUnmined = existsRawUnminedInput(nsUnminedInputs, opKey) != nil
 				cred.flags.IsUnmined = true
 				return &cred.flags, nil
 			}
